@@ -1300,7 +1300,7 @@ pub fn c12(ctx: &mut Ctx) {
         (stumpfu::zero(), stumpfu::one()),
         (binary::zero(), binary::one()),
     ];
-    let (small, nrand) = if ctx.thorough { (80usize, 400) } else { (40usize, 60) };
+    let (small, nrand) = if ctx.thorough { (200usize, 1500) } else { (40usize, 60) };
     for (k, (name, e)) in ENCS.iter().enumerate() {
         // Parigot numerals double in size with every successor (2^n nodes), Stump-Fu grow quadratically
         let small_e = match e {
